@@ -214,6 +214,8 @@ type Disk struct {
 	// OnFault, if set, is called (without the disk lock) each time an error is
 	// injected.
 	OnFault func()
+	// OnFaultOp, if set, is called like OnFault with the failed operation.
+	OnFaultOp func(kind OpKind, path string)
 	// OnRemove, if set, is called before a Remove is applied.
 	OnRemove func(path string)
 
@@ -411,6 +413,9 @@ func (d *Disk) pre(kind OpKind, p string) (bool, error) {
 	d.mu.Unlock()
 	if d.OnFault != nil {
 		d.OnFault()
+	}
+	if d.OnFaultOp != nil {
+		d.OnFaultOp(kind, p)
 	}
 	simrt.Note("fsfault " + kind.String() + " " + p)
 	if DebugFaults != nil {
